@@ -263,6 +263,24 @@ func (s *fakeS3) handle(w http.ResponseWriter, r *http.Request) {
 		}
 		v := vs[len(vs)-1]
 		w.Header().Set("ETag", v.etag)
+		s.mu.Lock()
+		s.n++
+		streamed := s.n%3 == 0
+		s.mu.Unlock()
+		if streamed {
+			// a streamed answer: chunked transfer encoding, no Content-Length
+			// (object stores and the proxies in front of them may do this)
+			s.mu.Lock()
+			s.Reqs["GET_chunked"]++
+			s.mu.Unlock()
+			half := len(v.body) / 2
+			w.Write(v.body[:half])
+			if f, ok := w.(http.Flusher); ok {
+				f.Flush()
+			}
+			w.Write(v.body[half:])
+			return
+		}
 		w.Header().Set("Content-Length", strconv.Itoa(len(v.body)))
 		w.Write(v.body)
 	case "PUT":
